@@ -464,8 +464,12 @@ func (w *c10World) judge(c *cUpdate, how string) (sig, what string, reached bool
 	_, authentic := refAuthentic(pk, recv)
 	// the inconsistent-value marker only holds while the marked message is still the one presented
 	incons := c.inconsistentNu && bytes.Equal(c.Data, c.inconsistentData)
-	// ---- Update.Verify
-	u1 := cloneUpdate(recv)
+	// ---- Update.Verify, on the received (decoded) object itself: what decoding leaves on the object
+	// is part of what is verified
+	u1, ok := transport(c.build(), how)
+	if !ok {
+		return "", "", false
+	}
 	var err error
 	var acc *Accumulator
 	if ps := vfh.Guard(func() { acc, err = u1.Verify(pk) }); ps != "" {
@@ -497,7 +501,11 @@ func (w *c10World) judge(c *cUpdate, how string) (sig, what string, reached bool
 		if incons && pos == w.b {
 			continue
 		}
-		if s, wh := w.judgeWitness(recv, authentic && !incons, how, pos); s != "" {
+		recvW, ok := transport(c.build(), how) // a freshly received object per witness
+		if !ok {
+			continue
+		}
+		if s, wh := w.judgeWitness(recvW, authentic && !incons, how, pos); s != "" {
 			if incons {
 				s = "inconsistent-accumulator:" + s
 			}
@@ -520,7 +528,8 @@ func (w *c10World) judgeWitness(recv *Update, authentic bool, how string, pos in
 		return "control:fresh-witness-accumulator-rejected", err.Error()
 	}
 	snapU, snapE, snapPtr, snapS := new(big.Int).Set(wit.U), new(big.Int).Set(wit.E), wit.SignedAccumulator, *wit.SignedAccumulator
-	u2 := cloneUpdate(recv)
+	u2 := recv // the received object itself (the reference works on a copy)
+	recv = cloneUpdate(recv)
 	if ps := vfh.Guard(func() { err = wit.Update(pk, u2) }); ps != "" {
 		return ps + ":Witness.Update", how
 	}
@@ -928,9 +937,9 @@ func c10FuzzJudge(t *testing.T, pk *gabikeys.PublicKey, u *Update) {
 	}
 	authentic := false
 	if u.SignedAccumulator != nil { // a message without any accumulator is never authentic
-		_, authentic = refAuthentic(pk, u)
+		_, authentic = refAuthentic(pk, cloneUpdate(u))
 	}
-	c := cloneUpdate(u)
+	c := u // the decoded object itself
 	var err error
 	if ps := vfh.Guard(func() { _, err = c.Verify(pk) }); ps != "" {
 		t.Fatalf("VF-VIOLATION %s:Update.Verify", ps)
@@ -1129,10 +1138,10 @@ func TestVF_C10_WireStructure(t *testing.T) {
 							}
 							authentic := false
 							if u.SignedAccumulator != nil { // a message without any accumulator is never authentic
-								_, authentic = refAuthentic(pk, &u)
+								_, authentic = refAuthentic(pk, cloneUpdate(&u))
 							}
 							var verr error
-							if ps := vfh.Guard(func() { _, verr = cloneUpdate(&u).Verify(pk) }); ps != "" {
+							if ps := vfh.Guard(func() { _, verr = u.Verify(pk) }); ps != "" {
 								rec.FailT(ps+":Update.Verify(decoded)", det)
 								continue
 							}
